@@ -262,3 +262,44 @@ macro_rules! pointwise_harness {
     };
 }
 include!("/verif/harness/shadow/crdt_pointwise_layouts.rs");
+
+/// The same frame property for the grow-only map (presence bits per key, symbolic values) - the
+/// code path `GMap::merge` / `GMap::insert` that all four map/set kinds share.
+fn gmap_from(p: u8, v: &[u8; 2], only: Option<u8>) -> GMap<u8, Max<u8>> {
+    let mut m = GMap::default();
+    let mut k = 0u8;
+    while k < 2 {
+        if p & (1 << k) != 0 && (only.is_none() || only == Some(k)) {
+            m.insert(k, Max::from(v[k as usize]));
+        }
+        k += 1;
+    }
+    m
+}
+
+fn gmap_pointwise<const A: u8, const B: u8, const KEY: u8>() {
+    let va: [u8; 2] = kani::any();
+    let vb: [u8; 2] = kani::any();
+    let m = gmap_from(A, &va, None).join(gmap_from(B, &vb, None));
+    let r = gmap_from(A, &va, Some(KEY)).join(gmap_from(B, &vb, Some(KEY)));
+    assert!(m.get(&KEY) == r.get(&KEY), "C22: merging grow-only maps is not pointwise in the keys");
+    let other = 1 - KEY;
+    assert!(m.contains_key(&other) == ((A | B) & (1 << other) != 0), "C22: merge lost or invented a key");
+    kani::cover!(true);
+}
+
+macro_rules! gmap_pointwise_harness {
+    ($name:ident, $a:expr, $b:expr, $k:expr) => {
+        #[kani::proof]
+        #[kani::unwind(5)]
+        fn $name() {
+            gmap_pointwise::<{ $a }, { $b }, { $k }>()
+        }
+    };
+}
+gmap_pointwise_harness!(c22_gmap_pointwise_33_key0, 3, 3, 0);
+gmap_pointwise_harness!(c22_gmap_pointwise_33_key1, 3, 3, 1);
+gmap_pointwise_harness!(c22_gmap_pointwise_13_key0, 1, 3, 0);
+gmap_pointwise_harness!(c22_gmap_pointwise_32_key1, 3, 2, 1);
+gmap_pointwise_harness!(c22_gmap_pointwise_12_key0, 1, 2, 0);
+gmap_pointwise_harness!(c22_gmap_pointwise_21_key1, 2, 1, 1);
